@@ -129,9 +129,9 @@ def snapshot_container(val):
 
 STORE_PROPS = {'code_eq_Q': ['C01', 'C10'], 'in_range': ['C02'], 'readback': ['C01'], 'flag_overflow': ['C04'],
                'flag_underflow': ['C04'], 'flag_inaccuracy': ['C04'], 'dir': ['C05'], 'err_lt_lsb': ['C05'],
-               'count': ['C01'], 'shape': ['C01', 'C10'], 'val_dtype': ['C02'], 'dtype_str': ['C02', 'C12'],
+               'count': ['C01'], 'shape': ['C01', 'C10'], 'val_dtype': ['C02'], 'dtype_str': ['C02'],
                'meta_format': ['C02'], 'meta_n_int': ['C02'], 'meta_limits': ['C02'], 'meta_status_keys': ['C02', 'C04'],
-               'meta_extended': ['C02', 'C18'], 'meta_modes': ['C02', 'C08'], 'input_unchanged': ['C20', 'C01', 'C11'],
+               'meta_extended': ['C02', 'C18'], 'meta_modes': ['C02', 'C08'], 'input_unchanged': ['C20', 'C01'],
                'no_exception': ['C01', 'C02']}
 
 
